@@ -1,0 +1,17 @@
+//go:build verif
+
+package kv
+
+import "time"
+
+// VerifMergeRoots, when set by a verification harness, may reorder the
+// (already shuffled) version list that mergeRoots is about to fold and
+// replace the creation time of the version being opened (build tag verif only).
+var VerifMergeRoots func(cfg Config, roots []string, when time.Time) ([]string, time.Time)
+
+func verifMergeRoots(cfg Config, roots []string, when time.Time) ([]string, time.Time) {
+	if VerifMergeRoots != nil {
+		return VerifMergeRoots(cfg, roots, when)
+	}
+	return roots, when
+}
